@@ -37,12 +37,11 @@ theorem c03_compile_refines (cfg : Cfg) (al : Bool) (fs : Fields) (sz : Option N
     (offs : List (Option Nat)) (plan : Plan) (data : Bytes) (pos : Nat)
     (hl : structLayout cfg al fs = .ok (sz, sa, offs)) (hwf : compileWF cfg al fs = true)
     (hc : compile cfg al fs offs = .ok plan)
-    (hstart : AlignedStart cfg al fs pos) (hsub : SubSizes cfg al fs data pos)
     (v : Val) (szs : List (String × Nat)) (p : Nat)
     (hr : readCompiled cfg al fs plan data pos = .ok (v, szs, p)) :
     ∃ szs', readStructWithSizes cfg al fs data pos = .ok (v, szs', p) ∧
       szs.filter (fun e => e.2 ≠ 0) = szs'.filter (fun e => e.2 ≠ 0) :=
-  c03_compiled_refines cfg al fs plan data pos (c03_compile_validates cfg al fs sz sa offs plan hl hwf hc) hstart hsub
+  c03_compiled_refines cfg al fs plan data pos (c03_compile_validates cfg al fs sz sa offs plan hl hwf hc)
     v szs p hr
 
 -- non-vacuity: the sample structure of `Proofs/Spec/C03.lean` (aligned; a bit-field run, a gap, a nested structure, an
@@ -50,7 +49,18 @@ theorem c03_compile_refines (cfg : Cfg) (al : Bool) (fs : Fields) (sz : Option N
 -- compiler's source contains today
 example : compileWF samplecfg true sampleFields = true ∧
     structLayout samplecfg true sampleFields = .ok (some 24, 4, [some 0, none, some 4, some 8, some 16, some 20, some 20]) ∧
-    compile samplecfg true sampleFields [some 0, none, some 4, some 8, some 16, some 20, some 20] = .ok samplePlanNow := by
+    compile samplecfg true sampleFields [some 0, none, some 4, some 8, some 16, some 20, some 20] = .ok samplePlan := by
   refine ⟨by decide +kernel, sample_layout, by decide +kernel⟩
+
+-- a bit-field that continues its unit in an aligned structure (alignment statement, then a seek in front of a void member
+-- while the validator does not know the static position): the model emits the plan with the seek, the validator accepts it
+example : compileWF samplecfg true contFields = true ∧
+    structLayout samplecfg true contFields = .ok (some 8, 4, [some 0, none, some 2, some 4]) ∧
+    compile samplecfg true contFields [some 0, none, some 2, some 4] = .ok contPlan ∧
+    planOK samplecfg true contFields contPlan = true := by
+  have h1 : compileWF samplecfg true contFields = true := by decide +kernel
+  have h2 : structLayout samplecfg true contFields = .ok (some 8, 4, [some 0, none, some 2, some 4]) := by decide +kernel
+  have h3 : compile samplecfg true contFields [some 0, none, some 2, some 4] = .ok contPlan := by decide +kernel
+  exact ⟨h1, h2, h3, c03_compile_validates _ _ _ _ _ _ _ h2 h1 h3⟩
 
 end Cstruct.Compiler.C03
